@@ -16,6 +16,9 @@
 //!    store, existing label under the wrong manifest) in the list => sign Err or output not Valid/Trusted;
 //!  * post-hoc removal (zero / overwrite with a `free` box / delete an assertion box of an ingredient manifest in
 //!    the final store, re-embedded with save_jumbf_to_memory) without a redaction entry => not Valid/Trusted;
+//!  * an ingredient manifest with 2..3 instances of one label (custom JSON, custom CBOR, c2pa.metadata): the next manifest
+//!    redacts instance i only (must be valid), then the box of another instance j is removed post hoc: never
+//!    Valid/Trusted, read re-embedded and as external manifest data against the untouched asset (every (i, j));
 //!  * two ingredients that share a manifest with different redactions: output Valid/Trusted, requested markers
 //!    gone, never-redacted markers present.
 
@@ -730,36 +733,206 @@ fn judge_chain_inner(run: &Run, c: &Case, soft: &Soft) -> CaseResult {
             run.count("posthoc_noop");
             return Ok(());
         }
-        // control: re-embedding the unmodified store keeps the asset valid
-        let control = vh::catch(|| c2pa::jumbf_io::save_jumbf_to_memory(fmt, &cur, &store));
-        let control_ok = match control {
-            Ok(Ok(b)) => matches!(vh::catch(|| sdk::read(fmt, &b)), Ok(Ok(r)) if sdk::is_valid_or_trusted(&r)),
-            _ => false,
-        };
-        if !control_ok {
-            run.count("posthoc_control_failed");
-            return Ok(());
-        }
-        let emb = match vh::catch(|| c2pa::jumbf_io::save_jumbf_to_memory(fmt, &cur, &edited)) {
-            Ok(Ok(b)) => b,
-            _ => {
-                run.count("posthoc_embed_error");
-                return Ok(());
-            }
-        };
-        match vh::catch(|| sdk::read(fmt, &emb)) {
-            Ok(Ok(r)) if sdk::is_valid_or_trusted(&r) => {
-                return Err(Fail::new(
-                    format!("C20:posthoc-{mname}-without-redaction-valid:{lclass}:{}", if has_red { "manifest-has-redactions" } else { "manifest-without-redactions" }),
-                    format!("assertion box {} was removed ({mname}) from the final store without a redaction entry (redactions so far {redacted:?}) and the asset still reads {}", t.path, sdk::state_name(r.validation_state())),
-                ))
-            }
-            Ok(Ok(_)) => run.count("posthoc_detected_invalid"),
-            Ok(Err(_)) => run.count("posthoc_detected_err"),
-            Err(p) => run.count(&format!("posthoc_read_panic:{}", vh::core::panic_site(&p))),
-        }
+        let sig = format!("C20:posthoc-{mname}-without-redaction-valid:{lclass}:{}", if has_red { "manifest-has-redactions" } else { "manifest-without-redactions" });
+        let what = format!("assertion box {} was removed ({mname}) from the final store without a redaction entry (redactions so far {redacted:?})", t.path);
+        judge_removed(run, "posthoc", fmt, &cur, &store, &edited, &sig, &what)?;
     }
     Ok(())
+}
+
+
+fn read_sidecar(fmt: &str, asset: &[u8], store: &[u8]) -> c2pa::Result<Reader> {
+    Reader::from_context(sdk::context()).with_manifest_data_and_stream(store, fmt, Cursor::new(asset.to_vec()))
+}
+
+/// A store from which an assertion was removed without a redaction entry must never be reported Valid/Trusted:
+/// judged on both routes, re-embedded into the asset (save_jumbf_to_memory) and as external manifest data against
+/// the untouched asset (the route that keeps the asset hash intact when the store shrinks). Each route has an
+/// unmodified-store control.
+fn judge_removed(run: &Run, tag: &str, fmt: &str, asset: &[u8], store: &[u8], edited: &[u8], sig: &str, what: &str) -> CaseResult {
+    let valid = |r: Result<c2pa::Result<Reader>, String>| -> (bool, String) {
+        match r {
+            Ok(Ok(r)) => {
+                let mut codes = sdk::failure_codes(&r);
+                codes.dedup();
+                let ok = sdk::is_valid_or_trusted(&r);
+                (ok, if ok { sdk::state_name(r.validation_state()).to_string() } else { format!("Invalid[{}]", codes.join("+")) })
+            }
+            Ok(Err(_)) => (false, "err".into()),
+            Err(p) => (false, format!("panic:{}", vh::core::panic_site(&p))),
+        }
+    };
+    // route 1: re-embedded
+    let control = vh::catch(|| c2pa::jumbf_io::save_jumbf_to_memory(fmt, asset, store));
+    let control_ok = match control {
+        Ok(Ok(b)) => valid(vh::catch(|| sdk::read(fmt, &b))).0,
+        _ => false,
+    };
+    if !control_ok {
+        run.count(&format!("{tag}_embed_control_failed"));
+    } else {
+        match vh::catch(|| c2pa::jumbf_io::save_jumbf_to_memory(fmt, asset, edited)) {
+            Ok(Ok(emb)) => {
+                let (v, st) = valid(vh::catch(|| sdk::read(fmt, &emb)));
+                if v {
+                    return Err(Fail::new(format!("{sig}:embedded"), format!("{what}; re-embedded, the asset still reads {st}")));
+                }
+                run.count(&format!("{tag}_embedded_detected_{}", st.split(':').next().unwrap_or("")));
+            }
+            _ => run.count(&format!("{tag}_embed_error")),
+        }
+    }
+    // route 2: external manifest data against the untouched asset
+    let (cv, _) = valid(vh::catch(|| read_sidecar(fmt, asset, store)));
+    if !cv {
+        run.count(&format!("{tag}_sidecar_control_failed"));
+        return Ok(());
+    }
+    let (v, st) = valid(vh::catch(|| read_sidecar(fmt, asset, edited)));
+    if v {
+        return Err(Fail::new(format!("{sig}:manifest-data"), format!("{what}; read with with_manifest_data_and_stream against the untouched asset it is still {st}")));
+    }
+    run.count(&format!("{tag}_sidecar_detected_{}", st.split(':').next().unwrap_or("")));
+    Ok(())
+}
+
+/// Remove assertion box `ti` from `store`: 1 zero the content boxes, 2 overwrite with a `free` box, 3 delete (lengths fixed).
+fn remove_box(store: &[u8], boxes: &[jw::BoxInfo], ti: usize, mode: u8) -> Option<Vec<u8>> {
+    let t = &boxes[ti];
+    match mode {
+        1 => {
+            let mut s = store.to_vec();
+            for ch in &t.children {
+                let cb = &boxes[*ch];
+                if !cb.is(&jw::T_JUMD) {
+                    let p = cb.payload();
+                    s[p.start..p.end].iter_mut().for_each(|x| *x = 0);
+                }
+            }
+            Some(s)
+        }
+        2 => {
+            if t.header_len != 8 {
+                return None;
+            }
+            let mut s = store.to_vec();
+            s[t.start + 4..t.start + 8].copy_from_slice(b"free");
+            s[t.start + 8..t.end()].iter_mut().for_each(|x| *x = 0);
+            Some(s)
+        }
+        _ => jw::apply_edit(store, boxes, &jw::Edit::Delete { idx: ti, fix: true }),
+    }
+}
+
+// ---- several instances of one label: one redacted legitimately, another removed post hoc ----
+
+const INST_LABELS: [&str; 3] = ["com.example.note", "com.example.cbor", "c2pa.metadata"];
+
+#[derive(Clone, Debug, Serialize, Deserialize, PartialEq, Eq, Hash)]
+struct InstCase {
+    kind: u8,
+    aseed: u16,
+    /// index into INST_LABELS (JSON custom, CBOR custom, c2pa.metadata)
+    label: u8,
+    /// number of instances of the label in the ingredient manifest (2..3)
+    n: u8,
+    /// instance redacted by the next manifest (legitimate)
+    redacted: u8,
+    /// instance removed afterwards without a redaction entry (differs from `redacted`)
+    removed: u8,
+    /// 1 zero, 2 free box, 3 delete
+    mode: u8,
+    update: bool,
+}
+
+fn judge_inst(run: &Run, c: &InstCase) -> CaseResult {
+    let soft = Soft::default();
+    let r = judge_inst_inner(run, c, &soft);
+    resolve(run, r, soft)
+}
+
+fn judge_inst_inner(run: &Run, c: &InstCase, soft: &Soft) -> CaseResult {
+    let kind = KINDS[c.kind as usize % KINDS.len()];
+    let a = asset(kind, c.aseed);
+    let fmt = a.format;
+    let label = INST_LABELS[c.label as usize % INST_LABELS.len()];
+    let n = 2 + (c.n as usize % 2);
+    let i = c.redacted as usize % n;
+    let mut j = c.removed as usize % n;
+    if j == i {
+        j = (j + 1) % n;
+    }
+    let mode = 1 + (c.mode % 3);
+    let mk = |k: usize| marker(c.aseed, 0, 20 + k as u8);
+    let empty = BTreeSet::new();
+    // ---- ingredient manifest P with n instances of the label ----
+    let assertions: Vec<Value> = (0..n)
+        .map(|k| match label {
+            "com.example.note" => json!({"label": label, "kind": "Json", "data": {"marker": mk(k), "instance": k}}),
+            "com.example.cbor" => json!({"label": label, "data": {"marker": mk(k), "instance": k}}),
+            _ => json!({"label": label, "data": {"@context": {"tiff": "http://ns.adobe.com/tiff/1.0/"}, "tiff:Make": mk(k), "tiff:Model": format!("model {k}")}}),
+        })
+        .collect();
+    let def = json!({"title": "c20 instances", "claim_generator_info": [{"name": "verif-harness", "version": "0.1"}], "assertions": assertions});
+    let p = match vh::catch(|| sdk::sign_with(sdk::context(), &def, Some(BuilderIntent::Create(DigitalSourceType::Empty)), sdk::signer("ed25519").as_ref(), fmt, &a.bytes)) {
+        Ok(Ok(b)) => b,
+        other => {
+            run.count(&format!("inst_generator_rejected:{label}"));
+            run.note(format!("{n} instances of {label} could not be signed: {:?}", other.map(|r| r.map(|_| ()).map_err(|e| e.to_string()))));
+            return Ok(());
+        }
+    };
+    let chk = check_output(soft, run, "base", kind, fmt, &p, &[], &empty, &[], &empty, &empty)?;
+    let pm = chk.chain.last().unwrap().clone();
+    let inst_label = |k: usize| if k == 0 { label.to_string() } else { format!("{label}__{k}") };
+    let mut planted = vec![];
+    for k in 0..n {
+        match pm.assertions.iter().find(|(_, al)| *al == inst_label(k)) {
+            Some((uri, _)) => planted.push(Planted { uri: uri.clone(), kind: K_NOTE, marker: mk(k) }),
+            None => {
+                run.count(&format!("inst_generator_rejected:{label}"));
+                run.note(format!("instance {} of {label} not found among {:?}", inst_label(k), pm.assertions));
+                return Ok(());
+            }
+        }
+    }
+    // marker -> instance mapping through the walker
+    {
+        let store = sdk::store_of(fmt, &p).map_err(|e| Fail::new("C20:harness-store", e.to_string()))?;
+        let boxes = jw::walk_store(&store).map_err(|e| Fail::new("C20:harness-walker", e))?;
+        for k in 0..n {
+            let path = format!("c2pa/{}/c2pa.assertions/{}", pm.label, inst_label(k));
+            let ok = boxes.iter().find(|b| b.is(&jw::T_JUMB) && b.path == path).map(|b| sdk::find_sub(&store[b.start..b.end()], mk(k).as_bytes()).is_some()).unwrap_or(false);
+            if !ok {
+                run.inconclusive(format!("instance mapping: marker {k} is not in box {path}"));
+                return Ok(());
+            }
+        }
+    }
+    run.count(&format!("inst_{label}_n{n}_redact{i}_remove{j}_{}", ["", "zero", "free", "delete"][mode as usize]));
+    run.nontrivial(c);
+    // ---- M redacts instance i only ----
+    let req = vec![planted[i].uri.clone()];
+    let intent = if c.update { BuilderIntent::Update } else { BuilderIntent::Edit };
+    let m = match vh::catch(|| build_layer(&LayerSpec { fmt, src: &p, li: 1, aseed: c.aseed, own: bit(K_NOTE), intent, redactions: &req, label: None, extra: vec![] })) {
+        Ok(Ok(b)) => b,
+        Ok(Err(e)) => return Err(Fail::new(format!("C20:allowed-redaction-sign-error:instance:{label}"), format!("redacting instance {i} of {n} x {label}: {e}"))),
+        Err(pn) => return Err(Fail::new(format!("C20:sign-panic:{}", vh::core::panic_site(&pn)), pn)),
+    };
+    let redacted: BTreeSet<String> = req.iter().cloned().collect();
+    check_output(soft, run, "instance", kind, fmt, &m, &req, &empty, &planted, &redacted, &empty)?;
+    // ---- remove instance j from P's assertion store without a redaction entry ----
+    let store = sdk::store_of(fmt, &m).map_err(|e| Fail::new("C20:harness-store", e.to_string()))?;
+    let boxes = jw::walk_store(&store).map_err(|e| Fail::new("C20:harness-walker", e))?;
+    let path = format!("c2pa/{}/c2pa.assertions/{}", pm.label, inst_label(j));
+    let Some(ti) = boxes.iter().position(|b| b.is(&jw::T_JUMB) && b.path == path) else {
+        return Err(Fail::new(format!("C20:instance-unredacted-box-missing:{label}"), format!("after redacting instance {i}, box {path} (instance {j}, not redacted) is gone from the store")));
+    };
+    let edited = if std::env::var("VERIF_SELFTEST").ok().as_deref() == Some("posthoc") { Some(store.clone()) } else { remove_box(&store, &boxes, ti, mode) };
+    let Some(edited) = edited else { return Ok(()) };
+    let sig = format!("C20:posthoc-sibling-instance-removed-valid:{}", if label == "c2pa.metadata" { "metadata" } else { "custom" });
+    let what = format!("{n} instances of {label}; instance {i} redacted by the {} manifest (valid); instance {j} box {path} then removed ({}) without a redaction entry", if c.update { "update" } else { "edit" }, ["", "zero", "free", "delete"][mode as usize]);
+    judge_removed(run, "inst", fmt, &m, &store, &edited, &sig, &what)
 }
 
 fn judge_merge_inner(run: &Run, c: &MergeCase, soft: &Soft) -> CaseResult {
@@ -844,7 +1017,7 @@ fn judge_merge_inner(run: &Run, c: &MergeCase, soft: &Soft) -> CaseResult {
 fn main() {
     vh::quiet_panics();
     let run = Run::from_args("C20", "exploration");
-    run.set_rule("chain case = (container jpeg/png/gif synthesised, marker seed, base manifest with a generated subset of 8 redactable assertion kinds, 1..3 further manifests each Edit or Update with own assertions and a bit mask selecting which not-yet-redacted assertions of the manifests below are redacted, optional disallowed target on the last layer, optional post-hoc removal mode+target). Exhaustive part: 3 base sets with <= 4 candidates x every subset x {Edit, Update}. merge case = two Edit branches over the same base with redaction masks r1, r2 and a combining manifest (second branch componentOf/inputTo) with its own mask r3. Non-trivial = >= 2 redactions hitting >= 2 manifests, or a disallowed target, or a post-hoc removal, or a merge where a branch redacted something.");
+    run.set_rule("chain case = (container jpeg/png/gif synthesised, marker seed, base manifest with a generated subset of 8 redactable assertion kinds, 1..3 further manifests each Edit or Update with own assertions and a bit mask selecting which not-yet-redacted assertions of the manifests below are redacted, optional disallowed target on the last layer, optional post-hoc removal mode+target). Exhaustive part: 3 base sets with <= 4 candidates x every subset x {Edit, Update}. merge case = two Edit branches over the same base with redaction masks r1, r2 and a combining manifest (second branch componentOf/inputTo) with its own mask r3. Non-trivial = >= 2 redactions hitting >= 2 manifests, or a disallowed target, or a post-hoc removal, or a merge where a branch redacted something. instances case = (label com.example.note JSON / com.example.cbor CBOR / c2pa.metadata, 2..3 instances in the ingredient manifest, redacted instance i, removed instance j != i, removal mode zero/free/delete, Edit/Update): enumerated completely (one removal mode and container per combination in quick, all in thorough).");
     run.assume("redaction URIs are discovered with Reader::assertion_references as docs/redaction.md says and every redaction is accompanied by a c2pa.redacted action; manifests are uncompressed (core.prefer_compress_manifests off) so payload markers are searchable as raw bytes; marker -> assertion mapping is verified with the independent JUMBF walker");
     run.assume("ingredient assertions that reference a manifest (the parentOf links of the chain) are not redaction candidates; in the merge scenario entries inherited from the branches may additionally appear in redactions() and markers redacted in only one branch are recorded, not judged");
 
@@ -933,6 +1106,34 @@ fn main() {
     // ---- conflicting redactions through two ingredients ----
     let strat = (0u8..3, any::<u16>(), 0u16..1024, 0u16..64, 0u16..64, 0u16..64, 0u8..2, any::<bool>()).prop_map(|(kind, aseed, base_own, r1, r2, r3, rel, swap)| MergeCase { kind, aseed, base_own, r1, r2, r3, rel, swap });
     run.drive_par("merge", run.scale(40, 800), threads, strat, |c| judge_merge(&run, c));
+
+    // ---- several instances of one label: instance i redacted (valid), instance j != i removed post hoc ----
+    let mut inst = vec![];
+    for label in 0..INST_LABELS.len() as u8 {
+        for n in [2u8, 3] {
+            for i in 0..n {
+                for j in 0..n {
+                    if i == j {
+                        continue;
+                    }
+                    for update in [false, true] {
+                        for mode in 0..3u8 {
+                            if run.quick() && mode != (label + i + j + update as u8) % 3 {
+                                continue;
+                            }
+                            for kind in 0..3u8 {
+                                if kind != (label + n + i + j + mode) % 3 && run.quick() {
+                                    continue;
+                                }
+                                inst.push(InstCase { kind, aseed: (run.seed as u16) ^ (0x1A00 + (label as u16) * 64 + (n as u16) * 16 + (i as u16) * 4 + j as u16), label, n, redacted: i, removed: j, mode, update });
+                            }
+                        }
+                    }
+                }
+            }
+        }
+    }
+    run.drive_enum_par("instances", inst, threads, |c| judge_inst(&run, c));
 
     run.finish();
 }
